@@ -362,14 +362,17 @@ def r4_wiring(P, rep, ctx):
     for q, pc in (("packer.PGPacker.update", "update"), ("packer.PGPacker.pack", "pack")):
         ufi = P.func(q)
         ug = ctx.cfg(ufi)
-        pcalls = [n.idx for n in ug.nodes if any(call_attr(c) == pc and norm(c.func).startswith("packer.") for c in ug.calls(n.idx))]
+        # the plugin's method: `<local>.update(Unclosable(container), ..)` / `<local>.pack(Unclosable(container), ..)`
+        def _is_packer_call(c):
+            return call_attr(c) == pc and isinstance(c.func, ast.Attribute) and isinstance(c.func.value, ast.Name) and c.func.value.id != "self" and bool(c.args) and isinstance(c.args[0], ast.Call) and norm(c.args[0].func) == "Unclosable"
+        pcalls = [n.idx for n in ug.nodes if any(_is_packer_call(c) for c in ug.calls(n.idx))]
         fins = [n.idx for n in ug.nodes if any(call_attr(c) == "_finalize" for c in ug.calls(n.idx))]
         if not pcalls or not fins:
             raise AnalysisError(f"C18.R4: {q}: packer.{pc}(..) / self._finalize(..) call not found")
         ok = all(ug.every_path_passes(pcalls, f_) for f_ in fins)
         in_cleanup = []
         for t in walk_local(ufi.node):
-            if isinstance(t, ast.Try) and any(call_attr(c) == pc for b in t.body for c in local_calls(b)):
+            if isinstance(t, ast.Try) and any(_is_packer_call(c) for b in t.body for c in local_calls(b)):
                 in_cleanup += [c for b in list(t.finalbody) + [b2 for h in t.handlers for b2 in h.body] for c in local_calls(b) if call_attr(c) == "_finalize"]
         rep.check(ok and not in_cleanup, "C18.R4", ufi.qual, f"the new snapshot is recorded only after packer.{pc} returned normally", ufi.loc(in_cleanup[0]) if in_cleanup else ufi.loc(), construct=f"_finalize after packer.{pc}",
                   message=f"{ufi.qual} records the new directory snapshot (self._finalize) {'in the clean-up of the try around' if in_cleanup else 'without passing'} packer.{pc}: after a packer fault the container claims the new state and the next diff omits the unprocessed paths")
